@@ -5,5 +5,6 @@ prop="$1"; file="$2"; shift 2
 rsync -a --delete --exclude target --exclude .git /repo/ /tmp/mut/
 for e in "$@"; do sed -i -E "$e" "/tmp/mut/$file"; done
 ( cd /tmp/mut && diff -u "/repo/$file" "$file" | head -20 )
+cp /verif/evidence/$prop.json /tmp/ev_$prop.json 2>/dev/null
 VERIF_REPO=/tmp/mut /verif/check "$prop" --no-kani; echo "exit=$?"
-git -C /verif checkout -- evidence 2>/dev/null
+cp /tmp/ev_$prop.json /verif/evidence/$prop.json 2>/dev/null
